@@ -1,4 +1,5 @@
 import VermouthModel.C19
+import VermouthModel.C19_Repair
 import Generated.C19Table
 open Proto C19
 
@@ -54,6 +55,51 @@ def encErr : Option Err → String
   | some (.nameError k t) => "nameerror " ++ encKind k ++ " " ++ encS t
   | some .keyError => "keyerror"
 
+/-! ### repair clause: C04 encoding of atoms / blocks -/
+
+def rAttrOf (t : Tok) : Option (String × String) := do
+  match ← t.list? with
+  | [k, v] => pure (← k.str?, ← v.str?)
+  | _ => none
+
+def rAtomOf (t : Tok) : Option C04.Atom := do
+  match ← t.list? with
+  | [k, n, e, as, p] =>
+      pure { key := ← k.int?, name := ← n.str?, elem := ← e.int?,
+             attrs := ← (← as.list?).mapM rAttrOf, ptm := (← p.optInt?).map (· != 0) }
+  | _ => none
+
+def rBlockOf (t : Tok) : Option (String × C04.Block) := do
+  match ← t.list? with
+  | [n, ns, es] => pure (← n.str?, { nodes := ← (← ns.list?).mapM rAtomOf, edges := ← (← es.list?).mapM edgeOf })
+  | _ => none
+
+def optStrsOf (t : Tok) : Option (Option (List String)) :=
+  match t with
+  | Tok.none => some none
+  | _ => (strs? t).map some
+
+def encRefErr : C19.Repair.RefErr → String
+  | .mutateTwice => "err mutatetwice"
+  | .unknownBlock n => "err unknownblock " ++ encStr n
+  | .unknownModification n => "err unknownmodification " ++ encStr n
+  | .doesNotFit n => "err doesnotfit " ++ encStr n
+
+def encOB : Option Bool → String
+  | some true => "1"
+  | some false => "0"
+  | none => "-"
+
+def encRAtom (a : C04.Atom) : String :=
+  encList [encInt a.key, encStr a.name, encInt a.elem, encOB a.ptm, encOptStr (a.attrs.lookup "resname")]
+
+def namedMatchOf (ref : C04.Block) (t : Tok) : Option (Int × Int) := do
+  match ← t.list? with
+  | [n, k] =>
+    let a ← C19.Repair.findByName ref (← n.str?)
+    pure (a.key, ← k.int?)
+  | _ => none
+
 def handle (_ : Unit) (toks : List Tok) : Unit × String :=
   let r : Option String :=
     match toks with
@@ -84,6 +130,23 @@ def handle (_ : Unit) (toks : List Tok) : Unit × String :=
         let g ← (← given.list?).mapM pairOf
         let b ← nt.nat?
         pure (encList ((cliModifications (b != 0) g).map fun p => encList [encS p.1, encS p.2]))
+    | [Tok.str "reference", blocks, mods, rn, mu, ms] => do
+        let ff : C19.Repair.FF := { blocks := ← (← blocks.list?).mapM rBlockOf, mods := ← (← mods.list?).mapM rBlockOf }
+        match C19.Repair.getReference ff (← rn.str?) (← optStrsOf mu) (← optStrsOf ms) with
+        | .ok ref => pure ("ok " ++ encList (ref.nodes.map encRAtom) ++ " " ++
+                           encList (ref.edges.map fun e => encList [encInt e.1, encInt e.2]))
+        | .error e => pure (encRefErr e)
+    | [Tok.str "repair1", blocks, mods, rn, mu, ms, nodes, edges, found, mtch, common] => do
+        let ff : C19.Repair.FF := { blocks := ← (← blocks.list?).mapM rBlockOf, mods := ← (← mods.list?).mapM rBlockOf }
+        match C19.Repair.getReference ff (← rn.str?) (← optStrsOf mu) (← optStrsOf ms) with
+        | .error e => pure (encRefErr e)
+        | .ok ref =>
+          let m : C04.Mol := { nodes := ← (← nodes.list?).mapM rAtomOf, edges := ← (← edges.list?).mapM edgeOf }
+          let M ← (← mtch.list?).mapM (namedMatchOf ref)
+          let R := C19.Repair.residueOf ref (← ints? found) M (← (← common.list?).mapM rAttrOf)
+          let o := C04.repairResidue m R
+          pure ("ok " ++ encList ((C19.Repair.residueAtoms R o).map encRAtom) ++ " " ++
+                encList (o.lost.map fun r => encStr (C04.nameOf ref r)))
     | _ => none
   ((), r.getD "bad-op")
 
